@@ -4,8 +4,11 @@ C2S : every output model of the corpus (CPU/NPU interleavings, several NPU subgr
       --cpu-tensor-alignment 16..256, arena cache sizes).  The plan is read from the *output file* only
       (OfflineMemoryAllocation metadata + tensor table + operator order), the touched arena extent from the decoded
       command streams (A-HW4 footprints), the reported figures from the summary CSV and the console.
-      ArenaTrace.tla decides NoOverlapLive (with the in-place exception), Aligned, ScratchAtZero, ScratchSpans and
-      ReportedSufficient.
+      ArenaTrace.tla decides NoOverlapLive (with the in-place exception; variable tensors live throughout), Aligned,
+      PlanComplete (every activation an operator of the output graph reads or writes has a place), ScratchAtZero,
+      ScratchSpans and ReportedSufficient (against the plan extent, the touched extent and PeakLive, a lower bound of the
+      arena that does not depend on the plan).  Families statevar / dangling of corpus_shapes.py are compiled by this
+      check only (opt-in).
 """
 import csv
 import io
@@ -17,6 +20,10 @@ from ..common import Run, MachineryError, seed
 
 AREA_LABEL = {"SRAM": "SRAM", "DRAM": "DRAM", "On-chip Flash": "On-chip Flash", "Off-chip Flash": "Off-chip Flash"}
 AREA_ID = {"SRAM": "sram", "DRAM": "dram", "On-chip Flash": "on_chip_flash", "Off-chip Flash": "off_chip_flash"}
+
+
+N_STATEVAR = 12     # networks of corpus_shapes family "statevar" per quick run (= its styles: every style in every run)
+N_DANGLING = 10     # ... of family "dangling"
 
 
 def plan_record(tid, out_bytes, align, summary_csv, stdout, accel):
@@ -64,10 +71,16 @@ def plan_record(tid, out_bytes, align, summary_csv, stdout, accel):
     for t, inf, o in zip(T, info, off["offsets"]):
         if o < 0 or t["i"] in scratch_ids or t["i"] in fast_ids or inf["first"] is None:
             continue
-        if t["is_variable"]:
-            inf["first"], inf["last"] = -1, nops
+        # a variable (state) tensor is live throughout: Arena.tla decides that from "var", the uses are passed as they are
         plan.append({"name": t["name"], "off": o, "size": t["size"], "first": inf["first"], "last": inf["last"],
-                     "cpu": inf["cpu"], "cin": sorted(inf["cin"]), "cout": sorted(inf["cout"])})
+                     "var": bool(t["is_variable"]), "cpu": inf["cpu"], "cin": sorted(inf["cin"]), "cout": sorted(inf["cout"])})
+    # every activation of the output graph, placed or not: no constant data, operand of an operator or subgraph input / output
+    acts = [{"name": t["name"], "off": o, "size": t["size"], "first": inf["first"], "last": inf["last"],
+             "var": bool(t["is_variable"]), "scratch": t["i"] in scratch_ids or t["i"] in fast_ids}
+            for t, inf, o in zip(T, info, off["offsets"]) if inf["first"] is not None and not t["const_len"]]
+    if sum(a["size"] for a in acts) >= 1 << 31:
+        raise MachineryError("activation sizes of one model add up to more than TLC integers hold")
+    cpuops = [o["k"] for o in model["ops"] if o["custom"] != "ethos-u"]
     scratch = [{"off": off["offsets"][i], "size": T[i]["size"]} for i in sorted(scratch_ids)]
     touched = 0
     for s in ss:
@@ -112,9 +125,60 @@ def plan_record(tid, out_bytes, align, summary_csv, stdout, accel):
                 m = re.search(r"Total SRAM used\s+([0-9.]+) KiB", stdout or "")
                 if m:
                     console_fast = int(float(m.group(1)) * 1024)
-    return {"t": tid, "align": align, "plan": plan, "scratch": scratch, "touched": touched, "io_end": io_end,
+    return {"t": tid, "align": align, "nops": nops, "cpuops": cpuops, "plan": plan, "acts": acts, "scratch": scratch, "touched": touched, "io_end": io_end,
             "reported": reported, "console": console, "spilling": not arena_in_sram, "fast_size": fast_size,
             "touched_fast": touched_fast, "reported_fast": reported_fast, "console_fast": console_fast}, None
+
+
+def _rec(t, plan, acts=None, nops=4, cpuops=(1, 3), reported=-1, console=-1):
+    def p(name, off, size, first, last, var=False, cin=(), cout=()):
+        return {"name": name, "off": off, "size": size, "first": first, "last": last, "var": var, "cpu": True,
+                "cin": list(cin), "cout": list(cout)}
+    plan = [p(*x) if isinstance(x, tuple) else p(**x) for x in plan]
+    if acts is None:
+        acts = [{"name": x["name"], "off": x["off"], "size": x["size"], "first": x["first"], "last": x["last"], "var": x["var"],
+                 "scratch": False} for x in plan]
+    return {"t": t, "align": 16, "nops": nops, "cpuops": list(cpuops), "plan": plan, "acts": acts, "scratch": [], "touched": 0,
+            "io_end": 0, "reported": reported, "console": console, "spilling": False, "fast_size": 0, "touched_fast": 0,
+            "reported_fast": -1, "console_fast": -1}
+
+
+def clause_controls():
+    """Synthetic records, one clause each, accepted and rejected variants side by side: the verdicts of ArenaTrace.tla must be
+    exactly the expected ones (operators 0 and 2 are ethos-u operators, 1 and 3 CPU operators)."""
+    def act(name, off, size, first, last, var=False, scratch=False):
+        return {"name": name, "off": off, "size": size, "first": first, "last": last, "var": var, "scratch": scratch}
+    x = ("x", 0, 64, -1, 0)
+    recs = [
+        # 1/2: a state tensor read only by operator 0 shares its bytes with tensors born later: rejected because it is a
+        #      variable (live throughout), accepted for an ordinary tensor with the same uses
+        _rec(1, [x, ("v", 64, 64, -1, 0, True), ("a", 128, 64, 0, 1), ("b", 64, 64, 1, 2), ("c", 0, 64, 2, 4)], reported=192),
+        _rec(2, [x, ("v", 64, 64, -1, 0, False), ("a", 128, 64, 0, 1), ("b", 64, 64, 1, 2), ("c", 0, 64, 2, 4)], reported=192),
+        # 3: a state tensor that no operator reads at all still holds its bytes
+        _rec(3, [x, ("v", 64, 64, -1, -1, True), ("a", 64, 64, 0, 4)], reported=128),
+        # 4/5: the second output of CPU operator 1 has no place; placed and reported: accepted
+        _rec(4, [x, ("a", 64, 64, 0, 1), ("o0", 0, 64, 1, 4)],
+             [act("x", 0, 64, -1, 0), act("a", 64, 64, 0, 1), act("o0", 0, 64, 1, 4), act("o1", -1, 64, 1, 1)], reported=128, console=128),
+        _rec(5, [x, ("a", 64, 64, 0, 1), ("o0", 0, 64, 1, 4), ("o1", 128, 64, 1, 1)], reported=192, console=192),
+        # 6: everything placed without overlap, but the reported size is below what any plan needs: x and a are both held
+        #    between operators 0 and 1 only if x lives on; here a, o0, o1 are live together at CPU operator 1 (192 bytes)
+        _rec(6, [x, ("a", 64, 64, 0, 1), ("o0", 0, 64, 1, 4), ("o1", 128, 64, 1, 1)], reported=191),
+        # 7: in-place exception: the output of ethos-u operator 2 over its dying input is no conflict and not counted twice
+        _rec(7, [x, ("a", 64, 64, 0, 1), ("b", 0, 64, 1, 2, False, [2], []), ("c", 0, 64, 2, 4, False, [], [2])], reported=128),
+        # 8: the same at CPU operator 1: conflict, and both operands count for the peak
+        _rec(8, [("x", 0, 64, -1, 1), ("a", 0, 64, 1, 4)], reported=64),
+        # 9: the ethos-u scratch operand is no value of its own: not counted, no place needed
+        _rec(9, [x, ("a", 64, 64, 0, 4)], [act("x", 0, 64, -1, 0), act("a", 64, 64, 0, 4), act("scratch", -1, 4096, -1, 2, scratch=True)],
+             reported=128),
+    ]
+    _, viol = tlc.validate_traces("ArenaTrace", "ArenaTrace.cfg", recs)
+    got = sorted((v[0], v[1], v[2]) for v in viol)
+    want = sorted([(1, "NoOverlapLive", "v"), (3, "NoOverlapLive", "v"),
+                   (4, "PlanComplete", "o1"), (4, "ReportedSufficient", "csv-peak"), (4, "ReportedSufficient", "console-peak"),
+                   (6, "ReportedSufficient", "csv-peak"), (8, "NoOverlapLive", "x"), (8, "ReportedSufficient", "csv-peak")])
+    if got != want:
+        raise MachineryError("clause controls of ArenaTrace.tla: expected %s, got %s" % (want, got))
+    return "variable tensors, PlanComplete, PeakLive, in-place exception: %d verdicts on 9 synthetic records as expected" % len(got)
 
 
 def main(tier):
@@ -128,6 +192,10 @@ def main(tier):
     # graph shapes (corpus_shapes.py); emphasis: tensors read inside and outside their NPU subgraph, tensors that are graph
     # input and output at once, several NPU subgraphs with outputs produced at different times
     jobs += corpus.shape_jobs(sd, tier, extra=["skip_out"] * 3 + ["io_alias"] * 3 + ["islands"], thorough=25)
+    # opt-in families of this property (appended: the jobs above keep their networks, options and alignment draws):
+    # state tensors read early / late by NPU and CPU operators with later tensors that fit into their bytes; operators with
+    # several outputs that stay in the output graph and of whose outputs some are used by nobody
+    jobs += corpus.shape_jobs(sd, tier, families=[], extra=["statevar"] * N_STATEVAR + ["dangling"] * N_DANGLING, thorough=12)
     import random
     rng = random.Random(sd)
     for j in jobs:       # alignment is this property's own dimension: sweep it on every job
@@ -173,6 +241,13 @@ def main(tier):
                     "reported": rec["reported"], "console": rec["console"], "scratch": rec["scratch"]})
     if not events:
         raise MachineryError("no output model produced")
+    # vacuity control of the clauses that need special networks: plans with a variable tensor whose last reader is not the last
+    # operator; activations written by a CPU operator and used by nobody else
+    nvar = sum(1 for e in events if any(p["var"] and p["last"] < e["nops"] - 1 for p in e["plan"]))
+    ndang = sum(1 for e in events if any(a["first"] == a["last"] and a["first"] in e["cpuops"] for a in e["acts"]))
+    run.cov["clause_population"] = {"plans_with_state_tensor_read_early": nvar, "models_with_unused_cpu_operator_output": ndang}
+    if corpus.opt_in_shape_families() and (nvar == 0 or ndang == 0):
+        raise MachineryError("no output model with an early-read state tensor (%d) / an unused CPU operator output (%d)" % (nvar, ndang))
     res, viol = tlc.validate_traces("ArenaTrace", "ArenaTrace.cfg", events, timeout=1800)
     run.add_trace_run("ArenaTrace", res, len(events))
     for v in viol:
@@ -196,6 +271,7 @@ def main(tier):
     if not {"NoOverlapLive", "Aligned", "ReportedSufficient"} <= names:
         raise MachineryError("negative control failed: corrupted plan accepted (%s)" % sorted(names))
     run.cov["negative_control"] = "overlapping, misaligned and under-reported plan rejected: %s" % sorted(names)
+    run.cov["negative_control_clauses"] = clause_controls()
     run.cov["rule"] = ("one record per output model of the corpus with --cpu-tensor-alignment swept; non-trivial = the plan "
                        "holds at least three arena tensors; distinct = (family, options)")
     run.assumptions += ["liveness from the operator order of the output graph; ethos-u scratch tensors are excluded from the "
